@@ -35,11 +35,11 @@ type zzOp struct {
 }
 
 type zzOpRes struct {
-	returned     bool
-	tx           *ledger.Transaction
-	err          error
-	ownLogAtAck  bool // at the instant of the acknowledgement a persisted log carries the tag / id
-	logsAtAck    int
+	returned    bool
+	tx          *ledger.Transaction
+	err         error
+	ownLogAtAck bool // at the instant of the acknowledgement a persisted log carries the tag / id
+	logsAtAck   int
 }
 
 const zzSendVarScript = "vars {\naccount $s\nmonetary $m\n}\nsend $m (\n  source = $s\n  destination = @b\n)\n"
@@ -482,7 +482,6 @@ func ZZ_C11(shape int) {
 	verifhook.Canary()
 }
 
-
 // ---------- C10 (racing reverts) ----------
 
 type zzC10RaceShape struct {
@@ -529,7 +528,6 @@ func ZZ_C10Race(shape int) {
 	}
 	verifhook.Canary()
 }
-
 
 // ---------- C08 (compilation cache under concurrency and eviction) ----------
 
